@@ -1787,7 +1787,10 @@ pub fn lookup(seed: u64, focus: Focus, rep: &mut Report) {
             // The cut-off is noticed when the service task next wakes up (its query pool registers
             // no timer of its own); what wakes it at the latest is the end of the last outstanding
             // request, whose timer restarts with every partial NODES packet (15 at most).
-            let bound = query_timeout + request_timeout * (retries as u32 + 1) * 16 + Duration::from_secs(3);
+            // (A lookup that is asked for more results than there are nodes ends when it has been
+            // through every candidate, one request timeout each at parallelism 1; the query timeout
+            // itself runs on the wall clock, which hardly moves while the rig's clock races ahead.)
+            let bound = query_timeout + request_timeout * (retries as u32 + 1) * (16 + s.w.nodes.len() as u32) + Duration::from_secs(3);
             // (in some lookups the user also removes entries later on, at any moment: an entry
             // the lookup was told about while it was a table entry stays a candidate too)
             let late_removals = !predicate && rng.chance(1, 4);
